@@ -288,6 +288,12 @@ class Gen:
                     if c["kind"] in ("awaitable", "corofn") and rng.random() < 0.3:
                         e = ["raise", 8 * 3 * rng.randrange(1, 13)]
                         user["cond"][str(c["cid"])] = [e, e]
+        # a condition that peeks with next(iter(xs)) on an empty iterable: StopIteration (sync callables only)
+        if not is_async and rng.random() < 0.12:
+            cands = [c for lv in levels for c in lv["pre"] + lv["post"] if c["kind"] == "plain"]
+            if cands:
+                e = ["raise", 8 * rng.randrange(1, 40) + 5]
+                user["cond"][str(rng.choice(cands)["cid"])] = [e, e]
         # body
         r = rng.random()
         if kind in ("init",):
